@@ -613,6 +613,15 @@ class NumpyTheory:
         res.inv = inv
         return res
 
+    def np_np_sort(self, args, kw, st, node):
+        """np.sort(x) of a 1-D array = x gathered by a sorting permutation (the values do not depend on how ties are ordered)"""
+        x = self.as_array(args[0], st)
+        c = self.acell(x, st)
+        if c.etype not in ('int', 'real') or kw or len(args) != 1:
+            return None
+        perm = self.np_np_argsort([x], {'kind': VStr('stable')}, st, node)
+        return self.nd_subscript(x, perm, st, node)
+
     def np_np_argmax(self, args, kw, st, node):
         x = self.as_array(args[0], st)
         c = self.acell(x, st)
